@@ -243,7 +243,7 @@ func (g *Gen) SetupBound(rule string) (sc BoundScenario, ok bool) {
 		return sc, true
 	case "v1-unlock-conditions-timelock", "v2-uc-policy-timelock":
 		T := child + ahead
-		lock := g.W.Reg(MakeLock(LockSpec{Kind: 2, K1: 1, K2: 2, Height: T}))
+		lock := g.W.Reg(MakeLock(LockSpec{Kind: KindIndex("v1-1of2-timelock"), K1: 1, K2: 2, Height: T}))
 		var id types.SiacoinOutputID
 		var okp bool
 		if b.v1Allowed() {
@@ -296,7 +296,7 @@ func (g *Gen) SetupBound(rule string) (sc BoundScenario, ok bool) {
 		return sc, true
 	case "v2-above":
 		H := child + ahead
-		lock := g.W.Reg(MakeLock(LockSpec{Kind: 8, K1: 1, Height: H}))
+		lock := g.W.Reg(MakeLock(LockSpec{Kind: KindIndex("above-and-pk"), K1: 1, Height: H}))
 		id, okp := b.PayV2To(lock.Address())
 		if !okp || !finish() {
 			return sc, false
@@ -316,7 +316,7 @@ func (g *Gen) SetupBound(rule string) (sc BoundScenario, ok bool) {
 		// harness's own median of the last <= 11 timestamps
 		step := int64(net.BlockInterval / time.Second)
 		lockTime := time.Unix(b.CS.PrevTimestamps[0].Unix()+step*int64(rapid.IntRange(0, 3).Draw(t, "afterSteps"))+int64(rapid.IntRange(0, 1).Draw(t, "afterOff"))*(step/2), 0)
-		lock := g.W.Reg(MakeLock(LockSpec{Kind: 9, K1: 1, Time: lockTime.Unix()}))
+		lock := g.W.Reg(MakeLock(LockSpec{Kind: KindIndex("after-and-pk"), K1: 1, Time: lockTime.Unix()}))
 		id, okp := b.PayV2To(lock.Address())
 		if !okp || !finish() {
 			return sc, false
